@@ -134,6 +134,18 @@ class WrapRun:
     def fail(self, monitor: str, cls: str, detail: str) -> None:
         raise Violation(self.prop, self.ws.adapter.name, monitor, cls, detail)
 
+    def guarded(self, where: str, fn: Any, *args: Any) -> Any:
+        """Call into the wrapper stack. The unwrapped env answers the same requests (the reference composition is computed
+        from them right afterwards), so a wrapper that raises - typically lax.cond / scan rejecting reset and step outputs
+        of different structure - does not return what the property says it returns."""
+        try:
+            return fn(*args)
+        except Violation:
+            raise
+        except Exception as e:  # noqa: BLE001
+            self.fail("autoreset_vs_reference" if self.mode == "C13" else "vmapautoreset_vs_vmap_autoreset", "wrapper_raised:" + type(e).__name__,
+                      f"{where}: the wrapper raised {type(e).__name__}: {str(e)[:300]}")
+
     # ---- reference -------------------------------------------------------------------------------
     def expected(self, s: Any, a: Any) -> Tuple[Any, Any, bool, Any]:
         ws = self.ws
@@ -216,15 +228,15 @@ class WrapRun:
         self.reset_keys = [[tuple(int(x) for x in np.asarray(k).reshape(-1))] for k in jkeys]
         self.instances = [[] for _ in keys]
         if self.mode == "C13":
-            outs = [ws.jit("w_reset", ws.W.reset)(k) for k in jkeys]
+            outs = [self.guarded("AutoResetWrapper.reset", ws.jit("w_reset", ws.W.reset), k) for k in jkeys]
             states, tss = [o[0] for o in outs], [o[1] for o in outs]
         else:
-            bs, bts = ws.jit("var_reset", ws.VAR.reset)(stack(jkeys))
-            bs2, bts2 = ws.jit("vwar_reset", ws.VWAR.reset)(stack(jkeys))
+            bs, bts = self.guarded("VmapAutoResetWrapper.reset", ws.jit("var_reset", ws.VAR.reset), stack(jkeys))
+            bs2, bts2 = self.guarded("VmapWrapper(AutoResetWrapper).reset", ws.jit("vwar_reset", ws.VWAR.reset), stack(jkeys))
             d = util.tree_diff(util.to_np((bs, bts)), util.to_np((bs2, bts2)))
             if d:
                 self.fail("vmapautoreset_vs_vmap_autoreset", "reset_differs", f"reset: VmapAutoResetWrapper vs VmapWrapper(AutoResetWrapper): {d[:3]}")
-            vs, vts = ws.jit("vw_reset", ws.VW.reset)(stack(jkeys))
+            vs, vts = self.guarded("VmapWrapper.reset", ws.jit("vw_reset", ws.VW.reset), stack(jkeys))
             self.vw_state = vs
             for i, (s_i, ts_i) in enumerate(zip(unstack(vs, self.B), unstack(vts, self.B))):
                 rs, rts = ws.ref_reset(jkeys[i])
@@ -264,7 +276,7 @@ class WrapRun:
         B = self.B
         if kind == "SOLO":
             i, a = int(seg[1]), seg[2]
-            s, ts = ws.jit("w_step", ws.W.step)(self.cur[i], ws.act(a))
+            s, ts = self.guarded("AutoResetWrapper.step", ws.jit("w_step", ws.W.step), self.cur[i], ws.act(a))
             self.compare(i, "SOLO", s, ts, self.ref[i], a)
             self._after(i, s, ts)
             self.stats.steps += 1
@@ -274,7 +286,7 @@ class WrapRun:
             n_last = 0
             for i in range(B):
                 fn = ws.jit("w_step", ws.W.step) if kind == "JIT" else ws.W.step
-                s, ts = fn(self.cur[i], ws.act(acts[i]))
+                s, ts = self.guarded("AutoResetWrapper.step (" + kind + ")", fn, self.cur[i], ws.act(acts[i]))
                 before = len(self.reset_keys[i])
                 self.compare(i, kind, s, ts, self.ref[i], acts[i])
                 n_last += len(self.reset_keys[i]) - before
@@ -287,10 +299,10 @@ class WrapRun:
             bstate = stack(self.cur)
             bact = ws.act(np.asarray(acts))
             if self.mode == "C13":
-                bs, bts = ws.jit("w_vstep", jax.vmap(ws.W.step))(bstate, bact)
+                bs, bts = self.guarded("vmap(AutoResetWrapper.step)", ws.jit("w_vstep", jax.vmap(ws.W.step)), bstate, bact)
             else:
-                bs, bts = ws.jit("var_step", ws.VAR.step)(bstate, bact)
-                bs2, bts2 = ws.jit("vwar_step", ws.VWAR.step)(bstate, bact)
+                bs, bts = self.guarded("VmapAutoResetWrapper.step", ws.jit("var_step", ws.VAR.step), bstate, bact)
+                bs2, bts2 = self.guarded("VmapWrapper(AutoResetWrapper).step", ws.jit("vwar_step", ws.VWAR.step), bstate, bact)
                 d = util.tree_diff(util.to_np((bs, bts)), util.to_np((bs2, bts2)))
                 self.stats.check("stack_pairs_compared")
                 if d:
@@ -298,7 +310,7 @@ class WrapRun:
                               f"inputs: {d[:3]}")
                 # (1) plain VmapWrapper slice i == unwrapped env on element i (inputs: the reference states)
                 rb = stack(self.ref)
-                vs, vts = ws.jit("vw_step", ws.VW.step)(rb, bact)
+                vs, vts = self.guarded("VmapWrapper.step", ws.jit("vw_step", ws.VW.step), rb, bact)
                 for i, (s_i, ts_i) in enumerate(zip(unstack(vs, B), unstack(vts, B))):
                     rs, rts = ws.ref_step(self.ref[i], ws.act(acts[i]))
                     d = util.tree_diff(util.to_np((s_i, ts_i)), util.to_np((rs, rts)))
@@ -326,7 +338,7 @@ class WrapRun:
                     return jax.lax.scan(body, s, a)
                 outs = []
                 for i in range(B):
-                    _, (ss, tss) = ws.jit(f"w_scan{k}", roll)(self.cur[i], acts[:, i])
+                    _, (ss, tss) = self.guarded("scan(AutoResetWrapper.step)", ws.jit(f"w_scan{k}", roll), self.cur[i], acts[:, i])
                     outs.append((ss, tss))
                 per = [[(jax.tree_util.tree_map(lambda x: x[t], o[0]), jax.tree_util.tree_map(lambda x: x[t], o[1])) for o in outs] for t in range(k)]
             else:
@@ -342,8 +354,8 @@ class WrapRun:
                         return ns, (ns, ts)
                     return jax.lax.scan(body, s, a)
                 bstate = stack(self.cur)
-                _, (ss, tss) = ws.jit(f"var_scan{k}", rollb)(bstate, acts)
-                _, (ss2, tss2) = ws.jit(f"vwar_scan{k}", rollb2)(bstate, acts)
+                _, (ss, tss) = self.guarded("scan(VmapAutoResetWrapper.step)", ws.jit(f"var_scan{k}", rollb), bstate, acts)
+                _, (ss2, tss2) = self.guarded("scan(VmapWrapper(AutoResetWrapper).step)", ws.jit(f"vwar_scan{k}", rollb2), bstate, acts)
                 d = util.tree_diff(util.to_np((ss, tss)), util.to_np((ss2, tss2)))
                 self.stats.check("stack_pairs_compared", k)
                 if d:
@@ -404,6 +416,32 @@ def render_check(ws: WrapSys, run: WrapRun, stats: Stats) -> None:
             if d:
                 raise Violation("C14", ws.adapter.name, "render_first", "render_not_first_element", f"{name}.render passed something else than element 0: {d[:2]}")
             stats.check("render_checks")
+        # the same with a batch created from new-style typed keys (jax.random.key): every environment accepts them, and
+        # "the first element of the batch" must not depend on how many dimensions a single key has
+        jax = ws.jax
+
+        def plain(tree: Any) -> Any:
+            def leaf(x: Any) -> Any:
+                if hasattr(x, "dtype") and jax.dtypes.issubdtype(x.dtype, jax.dtypes.prng_key):
+                    return np.asarray(jax.random.key_data(x))
+                return np.asarray(x)
+            return jax.tree_util.tree_map(leaf, tree)
+
+        B = max(1, len(run.cur))
+        tkeys = jax.random.split(jax.random.key(int(run.B) + 17), B)
+        for name, w in (("VmapWrapper", ws.VW), ("VmapAutoResetWrapper", ws.VAR)):
+            got.clear()
+            env.__dict__["render"] = lambda st: got.append(plain(st)) or "rendered"
+            bs, _ = w.reset(tkeys)
+            first, _ = env.reset(tkeys[0])
+            w.render(bs)
+            if len(got) != 1:
+                raise Violation("C14", ws.adapter.name, "render_first", "render_not_forwarded", f"{name}.render (typed keys) did not call the inner render exactly once")
+            d = util.tree_diff(got[0], plain(first))
+            if d:
+                raise Violation("C14", ws.adapter.name, "render_first", "render_not_first_element",
+                                f"{name}.render on a batch reset from typed keys passed something else than element 0: {d[:2]}")
+            stats.check("render_checks_typed_keys")
     finally:
         if had:
             env.__dict__["render"] = old
